@@ -117,6 +117,8 @@ pub struct NRunner {
     pub dev: Dev,
     pub nwk: [u8; 16],
     pub app: [u8; 16],
+    /// the application leaves downlinks in the device's queue until `take`
+    pub hold: bool,
 }
 
 fn parse_item(t: &str) -> Option<NbItem> {
@@ -142,7 +144,7 @@ fn parse_header(hd: &str) -> Option<NRunner> {
     let mut rng = HRng::new(seed, forced);
     rng.budget = 200_000;
     let dev: Dev = Device::new(region::Configuration::new(reg), radio, rng);
-    Some(NRunner { dev, nwk: NWK_KEY, app: APP_KEY })
+    Some(NRunner { dev, nwk: NWK_KEY, app: APP_KEY, hold: false })
 }
 
 pub fn parse_header_pub(hd: &str) -> Option<NRunner> {
@@ -182,8 +184,10 @@ impl NRunner {
             "up=-".into()
         };
         let mut v = vec![];
-        while let Some(d) = self.dev.take_downlink() {
-            v.push(format!("{}:{}", d.fport, hex(&d.data)));
+        if !self.hold {
+            while let Some(d) = self.dev.take_downlink() {
+                v.push(format!("{}:{}", d.fport, hex(&d.data)));
+            }
         }
         v.reverse();
         if let Some(s) = self.dev.verif_snapshot().session {
@@ -265,6 +269,19 @@ impl NRunner {
             ["dr", n] => {
                 self.dev.set_datarate(lorawan_device::region::DR::from(n.parse::<u8>().ok()?));
                 Some("ok".into())
+            }
+            ["hold"] => {
+                // the application stops collecting downlinks after every call
+                self.hold = true;
+                Some("ok".into())
+            }
+            ["take"] => {
+                let mut v = vec![];
+                while let Some(d) = self.dev.take_downlink() {
+                    v.push(format!("{}:{}", d.fport, hex(&d.data)));
+                }
+                v.reverse();
+                Some(format!("dls={}", if v.is_empty() { "-".to_string() } else { v.join(",") }))
             }
             ["snap"] => Some(show_snap(&self.dev.verif_snapshot())),
             _ => None,
